@@ -406,7 +406,8 @@ def ref_quality(ranges, mt):
 
 def ref_negotiate(accept, xml, custom):
     """-> (set of acceptable response media types, or empty set = no body), note label."""
-    ranges = accept if accept is not None else [{'t': '*', 's': '*', 'q': None}]
+    # an Accept header that is present but empty states no preference: req.accept documents / implements it as '*/*'
+    ranges = accept if accept else [{'t': '*', 's': '*', 'q': None}]
     cands = [JSON_TYPE] + (list(XML_TYPES) if xml else []) + [MULTIPART, URLENCODED] + list(custom)
     quals = [(mt, ref_quality(ranges, mt)) for mt in cands]
     top = max(q for _mt, q in quals)
@@ -1126,7 +1127,8 @@ def run_render_case(case):
     ctype = got.values('content-type')
     labels = [case['stack'], 'kind:' + ('HTTPError' if err['cls'] == 'HTTPError' else 'subclass'),
               'site:' + case['site'], 'xml_option:' + ('on' if case['xml'] else 'off'),
-              'accept:' + ('absent' if case['accept'] is None else '%d_ranges' % len(case['accept'])),
+              'accept:' + ('absent' if case['accept'] is None else 'empty_header' if not case['accept']
+                           else '%d_ranges' % len(case['accept'])),
               'negotiation:' + how, 'headers:' + (err['headers']['form'] if err['headers'] else 'none')]
     if err['cls'] == 'HTTPError':
         labels.append('status_form:' + err['status'][0])
@@ -1202,7 +1204,7 @@ _WS = ['', '', ' ', '\t']
 def _accept(draw):
     if draw(st.sampled_from([True, False, False, False, False, False])):
         return None
-    n = draw(st.sampled_from([1, 1, 2, 2, 3, 4]))
+    n = draw(st.sampled_from([1, 1, 2, 2, 3, 4, 1, 2, 0]))
     types = draw(st.lists(st.sampled_from(_ACCEPT_TYPES), min_size=n, max_size=n, unique=True))
     out = []
     for t, s in types:
